@@ -148,6 +148,8 @@ class Assembly:
                         sections['subs'].append('?' + t[len('//@sub? '):]); cur = None
                     elif t.startswith('//@sub '):
                         sections['subs'].append(t[len('//@sub '):]); cur = None
+                    elif t.startswith('//@subre '):
+                        sections['subs'].append('~' + t[len('//@subre '):]); cur = None
                     elif t.startswith('//@sigsub '):
                         sections['sigsubs'].append(t[len('//@sigsub '):]); cur = None
                     elif cur is not None:
@@ -413,7 +415,23 @@ def _derive_impls(text, kind, name, derives):
     return '\n'.join(out)
 
 
+def _apply_subre(sub, text, fname):
+    """//@subre "regex" => "replacement with \\1.." [xN]: a counted regular-expression substitution (path / constructor resolution
+    whose operands vary); the number of matches must be N (default 1)"""
+    m = re.match(r'\s*"((?:[^"\\]|\\.)*)"\s*=>\s*"((?:[^"\\]|\\.)*)"\s*(?:x(\d+|\*))?\s*$', sub)
+    if not m:
+        raise Undecided('template error: bad //@subre %s' % sub)
+    pat = bytes(m.group(1), 'utf-8').decode('unicode_escape')
+    rep = bytes(m.group(2), 'utf-8').decode('unicode_escape')
+    found = re.findall(pat, text, flags=re.S)
+    if m.group(3) != '*' and len(found) != int(m.group(3) or 1):
+        raise Undecided('lost anchor in fn %s: /%s/ matches %d times, expected %s' % (fname, pat, len(found), m.group(3) or 1))
+    return re.sub(pat, rep, text, flags=re.S), len(found)
+
+
 def _apply_sub(sub, text, fname):
+    if sub.startswith('~'):
+        return _apply_subre(sub[1:], text, fname)
     """sub syntax:  "old" => "new" [xN]   (literal text, must occur exactly N times, default 1)"""
     optional = sub.startswith('?')
     if optional:
